@@ -303,7 +303,7 @@ static int iv_fd_epoll_event_rx_on(struct iv_state *st)
 	___mutex_unlock(&iv_fd_epoll_active_fd_mutex);
 
 	event.data.ptr = st;
-	event.events = 0;
+	event.events = EPOLLONESHOT;
 	do {
 		ret = epoll_ctl(st->u.epoll.epoll_fd, EPOLL_CTL_ADD,
 				iv_active_fd, &event);
